@@ -801,6 +801,23 @@ def check_chooser(ctx, b, group="FRESH", tag="chooser"):
             break
         if exits is not None:
             break
+    if exits is None:
+        # the search as an iterator: `(n..).map(|m| format!(..)).find(|c| !taken.contains(c) && !fresh.contains(c))` stops at the first candidate
+        # its closure accepts
+        for fc in [n for n in walk(b["body"]) if n.get("k") == "MethodCall" and n.get("method") == "find" and len(n.get("args", [])) == 1 and strip(n["args"][0]).get("k") == "Closure"]:
+            cl_ = strip(fc["args"][0])
+            body_ = strip(cl_["body"])
+            while body_.get("k") == "Block" and not body_.get("stmts") and body_.get("expr") is not None:
+                body_ = strip(body_["expr"])
+            unbounded = any(x.get("k") == "Struct" and "RangeFrom" in str(x.get("ty", "") + str(x.get("res", {}).get("adt", ""))) for x in walk(fc["recv"])) or "RangeFrom" in str(fc["recv"].get("ty", ""))
+            table = {}
+            for ta in (False, True):
+                for fr in (False, True):
+                    table[(ta, fr)] = truth(body_, {"taken": ta, "fresh": fr})
+            if unbounded and all(v_ is not None for v_ in table.values()):
+                exits = table
+                in_while = sorted("%s%s:%s" % ("taken " if ta else "", "chosen" if fr else "", "exit" if table[(ta, fr)] else "stay") for ta, fr in table)
+                break
     ok_loop = exits is not None and exits == {(False, False): True, (False, True): False, (True, False): False, (True, True): False}
     ctx.add(group, tag + ":loop", ok_loop, ctx.site(b),
             "a candidate is redrawn while it is in the taken names (`%s`) OR among the names already handed out (`%s`): %s" % (taken_name, fresh_name, in_while))
